@@ -146,7 +146,7 @@ func runC11(r *rt.Run, tier string) {
 	if faulty {
 		r.Stats["config.faulty"]++
 		N := len(armored)
-		const nSplice, nOther = 5, 5
+		const nSplice, nOther = 5, 6
 		total := 4*N + nSplice + nOther
 		fp := faultIndex(r, total, func() int {
 			switch t.Weighted([]int{6, 3, 2}, "fault.kind") {
@@ -253,6 +253,12 @@ func runC11(r *rt.Run, tier string) {
 			r.Fault("channel.splice")
 		default:
 			switch fp - 4*N - nSplice {
+			case 5: // a block that does NOT verify (outsider, foreign text) placed BEFORE the genuine block
+				first := clearsignDoc(pgpKeys[3], []byte(c11Foreign))
+				data = append(append([]byte{}, first...), armored...)
+				foreign = true
+				fault = "unverifiable-block-before-genuine-block"
+				mustFail, either = true, false
 			case 0: // a second clearsigned block appended (signed by an outsider, foreign text)
 				second := clearsignDoc(pgpKeys[3], []byte(c11Foreign))
 				data = append(append([]byte{}, armored...), second...)
@@ -402,6 +408,49 @@ func runC11(r *rt.Run, tier string) {
 			}
 		}
 		r.Probe("reread-with-other-keyrings")
+		// two readers alive at once: a verified reader that has reached EOF must
+		// stay at EOF (and must never hand out another reader's text) while a
+		// second, unverified reader is created and used
+		var leaked string
+		var afterErr error
+		task := r.Solo("two-readers", func() {
+			r1, err := control.NewParagraphReader(simio.NewPlainReader(r, "r1", data), keyring)
+			if err != nil {
+				afterErr = err
+				return
+			}
+			for {
+				if _, err := r1.Next(); err != nil {
+					break
+				}
+			}
+			r2, err := control.NewParagraphReader(simio.NewPlainReader(r, "r2", []byte(c11Foreign)), nil)
+			if err == nil {
+				r2.Next()
+			}
+			for i := 0; i < 3; i++ {
+				p, err := r1.Next()
+				if err == nil && p != nil {
+					leaked = mentionsForeign([]control.Paragraph{*p})
+					if leaked == "" {
+						leaked = fmt.Sprintf("a paragraph after EOF: %v", p.Order)
+					}
+					return
+				}
+				afterErr = err
+			}
+			if r2 != nil && err == nil {
+				r2.Next()
+			}
+		})
+		if taskTrouble(r, "C11", key+"/two-readers", task) {
+			return
+		}
+		_ = afterErr
+		if leaked != "" {
+			r.Violate("C11/unsigned-text-reached-caller", "two-readers/verified-reader-after-EOF", "a verified reader (Signer() non-nil) that had reached EOF returned %s after a second reader was created", leaked)
+		}
+		r.Probe("two-readers-alive")
 	}
 
 	// 4. unsigned input never has a signer (the plain text of the same document)
@@ -426,5 +475,5 @@ func init() {
 		},
 		Assumptions: []string{"x/crypto/openpgp both signs and verifies: a bug common to both directions is invisible", "must-fail is only demanded where the canonical signed text or the decoded signature provably changed (non-blank text byte to another non-blank byte; base64 character to another base64 character; truncation before the checksum line; replaced signature; keyring without signer); all other faults are checked for soundness only", "fixture keys; signing with a fixed time is byte-deterministic"},
 	})
-	propProbes["C11"] = []string{"reread-with-other-keyrings", "empty-keyring-as-nil-slice", "verification-succeeded", "dash-escaped-line", "substitution-in-signed-text", "substitution-in-signature-armor", "truncation-inside-armor", "nil-keyring", "unsigned-input"}
+	propProbes["C11"] = []string{"two-readers-alive", "reread-with-other-keyrings", "empty-keyring-as-nil-slice", "verification-succeeded", "dash-escaped-line", "substitution-in-signed-text", "substitution-in-signature-armor", "truncation-inside-armor", "nil-keyring", "unsigned-input"}
 }
